@@ -9,13 +9,16 @@ import (
 	"os"
 	"os/exec"
 	"strings"
+	"sync"
 	"time"
 
 	"github.com/akrennmair/updog"
 	proto "github.com/akrennmair/updog/proto/updog/v1"
 	"github.com/akrennmair/updog/verifhook"
 	"google.golang.org/grpc"
+	"google.golang.org/grpc/codes"
 	"google.golang.org/grpc/credentials/insecure"
+	"google.golang.org/grpc/status"
 )
 
 var updogBin = "/verif/.build/updog"
@@ -46,6 +49,10 @@ func startServer(file string, cache bool, preload bool) *server {
 		s := &server{addr: fmt.Sprintf("127.0.0.1:%d", freePort()), done: make(chan struct{})}
 		args := []string{"server", "-l", s.addr, "-d", fmt.Sprintf("127.0.0.1:%d", freePort()), "-f", file, fmt.Sprintf("-c=%v", cache), fmt.Sprintf("-p=%v", preload)}
 		s.cmd = exec.Command(updogBin, args...)
+		if base := os.Getenv("VERIF_RACE_LOG"); base != "" {
+			// a -race build of the server reports into the same log family as the harness itself
+			s.cmd.Env = append(os.Environ(), "GORACE=log_path="+base+".server exitcode=0")
+		}
 		var errb strings.Builder
 		s.cmd.Stderr = &errb
 		if err := s.cmd.Start(); err != nil {
@@ -67,9 +74,11 @@ func startServer(file string, cache bool, preload bool) *server {
 			default:
 			}
 			ctx, cancel := context.WithTimeout(context.Background(), 300*time.Millisecond)
-			_, err := s.cl.Query(ctx, &proto.QueryRequest{})
+			// a well-formed probe on a column that need not exist: any answer (result or RPC error from the handler)
+			// means the server is up; only transport errors mean "not yet"
+			_, err := s.cl.Query(ctx, &proto.QueryRequest{Queries: []*proto.Query{{Expr: (&WT{Op: "E", C: hx("readiness"), V: hx("probe")}).Proto()}}})
 			cancel()
-			if err == nil {
+			if err == nil || status.Code(err) == codes.Unknown {
 				ok = true
 				break
 			}
@@ -201,8 +210,65 @@ func runSrvCase(o *Oracle, c *SrvCase, rep *Report) {
 			rep.Violate(Violation{Kind: "input", Signature: "C13:response-mismatch", What: fmt.Sprintf("batch %d (cache=%v preload=%v)", bi, c.Cache, c.Preload), Expected: trunc(want, 1500), Actual: trunc(got, 1500), Case: c})
 		}
 	}
+	// several clients at once: every response still belongs to its own request
+	if len(c.Batches) > 0 {
+		var wg sync.WaitGroup
+		bad := make([]string, 4)
+		for g := 0; g < 4; g++ {
+			wg.Add(1)
+			go func(g int) {
+				defer wg.Done()
+				for k := 0; k < 6; k++ {
+					bi := (g*5 + k) % len(c.Batches)
+					req := &proto.QueryRequest{}
+					var parts []string
+					failed := false
+					for i := range c.Batches[bi] {
+						b := &c.Batches[bi][i]
+						if b.W != nil {
+							failed = true
+							break
+						}
+						id := int32(1000*(g+1) + i) // ids unique per client
+						req.Queries = append(req.Queries, qcaseToProto(&b.Q, id))
+						parts = append(parts, fmt.Sprintf("id=%d", id))
+					}
+					if failed || len(req.Queries) == 0 {
+						continue
+					}
+					got, _ := s.query(req)
+					if got == "rpc-error" {
+						continue // an invalid member (unknown column): compared in the sequential part
+					}
+					// ids and result count must be this request's
+					n := strings.Count(got, "id=")
+					okIDs := n == len(parts)
+					for _, p := range parts {
+						if !strings.Contains(got, p+" ") {
+							okIDs = false
+						}
+					}
+					if !okIDs {
+						bad[g] = fmt.Sprintf("client %d sent ids %v, got %s", g, parts, trunc(got, 300))
+						return
+					}
+				}
+			}(g)
+		}
+		wg.Wait()
+		rep.Count("concurrent-client-rounds")
+		for _, b := range bad {
+			if b != "" {
+				rep.Violate(Violation{Kind: "schedule", Signature: "C13:response-of-another-request", What: "with 4 concurrent clients a response does not hold exactly the results of its own request: " + b, Expected: "one result per query of the same request", Actual: b, Case: c})
+				break
+			}
+		}
+	}
 	// the sql driver with a grpc:// data source returns the same rows as the model predicts (and the file DSN, C12)
 	db, err := sql.Open("updog", "grpc://"+s.addr)
+	if c.Data.OddNames {
+		err = fmt.Errorf("skip: column names are not identifiers")
+	}
 	if err == nil {
 		defer db.Close()
 		pool := poolOf(rows)
@@ -230,6 +296,19 @@ func runC13(rep *Report, r *Rng, tier string) {
 	}
 	for i := 0; i < n; i++ {
 		d := genDataSpecUTF8(r, 300)
+		if i%2 == 1 { // arbitrary (valid UTF-8) column names: the protobuf API does not go through the text parser
+			for ci, nm := range []string{"k=", "k", "a b", "ü", "x,y", "=v"} {
+				if ci < len(d.Cols) {
+					d.Cols[ci].Name = hx(nm)
+				}
+			}
+			for ci := range d.Cols {
+				if ci%2 == 0 {
+					d.Cols[ci].Style = "eqsign"
+				}
+			}
+			d.OddNames = true
+		}
 		pool := poolOf(d.Materialize())
 		pool.utf8 = true
 		c := &SrvCase{Data: d, Cache: i%2 == 0, Preload: (i/2)%2 == 0}
@@ -500,6 +579,19 @@ func runC14(rep *Report, r *Rng, tier string) {
 			cfg := (i / perServer) % 4
 			srv = startServer(path, cfg%2 == 0, cfg/2 == 1)
 			rep.Count("servers-started")
+			// right after start: many clients at once, grouped queries (first use of every code path concurrently)
+			if !burstOnFreshServer(srv, &probe, "ok id=1 "+o.Ask("idx q "+probe.Toks()), rep) {
+				srv.stop()
+				srv = startServer(path, true, false)
+			}
+			// a request without any query is decodable too
+			if res, alive := srv.query(&proto.QueryRequest{}); !alive || res != "ok " {
+				rep.Violate(Violation{Kind: "input", Signature: "C14:empty-request", What: "a QueryRequest without queries: " + srv.exitS, Expected: "empty response", Actual: trunc(res, 200), Case: map[string]any{"request": "empty"}})
+				if !alive {
+					srv.stop()
+					srv = startServer(path, true, false)
+				}
+			}
 		}
 		if len(c.Trees) > 60 {
 			c.Trees, c.NoExp = c.Trees[:60], c.NoExp[:60]
@@ -549,4 +641,38 @@ func init() {
 		defer srv.stop()
 		runHostileCase(o, &c, rep, srv, idx)
 	}
+}
+
+
+// burstOnFreshServer sends the probe from 8 clients at the same time to a server that has not answered a grouped
+// query yet; every answer must be the sequential one and the process must survive.
+func burstOnFreshServer(srv *server, probe *QCase, want string, rep *Report) bool {
+	var wg sync.WaitGroup
+	out := make([]string, 8)
+	for g := 0; g < 8; g++ {
+		wg.Add(1)
+		go func(g int) {
+			defer wg.Done()
+			for k := 0; k < 5; k++ {
+				res, _ := srv.query(&proto.QueryRequest{Queries: []*proto.Query{qcaseToProto(probe, 0)}})
+				if res != want {
+					out[g] = res
+					return
+				}
+			}
+		}(g)
+	}
+	wg.Wait()
+	rep.Count("fresh-server-bursts")
+	if !srv.alive() {
+		rep.Violate(Violation{Kind: "schedule", Signature: "C14:server-died", What: "server process exited under 8 concurrent well-formed grouped requests right after start: " + trunc(srv.exitS, 600), Expected: want, Actual: "process exit", Case: map[string]any{"burst": probe.Toks()}})
+		return false
+	}
+	for _, s := range out {
+		if s != "" {
+			rep.Violate(Violation{Kind: "schedule", Signature: "C14:concurrent-answer-differs", What: "concurrent well-formed request answered differently", Expected: want, Actual: trunc(s, 300), Case: map[string]any{"burst": probe.Toks()}})
+			return true
+		}
+	}
+	return true
 }
